@@ -307,3 +307,514 @@ def Q1(vc):
     vc.ensure('got_item_processed_next', G.inflight is None or G.exit_kind == 'cancelled')
     vc.ensure('order_invariant', Implies(G.exit_kind == 'idle-timeout', Eq(vc_len(G.content), 0)))
     return (outcome, G.exit_kind)
+
+
+# ================================================================================================ watcher
+@harness('Q5', targets=['kopf._core.reactor.queueing.watcher', 'kopf._core.reactor.queueing.get_uid'],
+         props=['C01', 'C20'],
+         clauses=['one_put_per_event', 'no_put_for_bookmarks', 'put_into_live_stream', 'create_path_insert_put_spawn',
+                  'spawn_only_when_absent', 'keyed_by_uid', 'worker_failure_escalates', 'drains_and_closes_on_exit'],
+         canaries=['canary.never_spawns', 'canary.always_puts'],
+         trusted=['asyncio.Queue.put on an unbounded queue does not suspend', 'aiotasks.Scheduler.spawn by contract S2 (may suspend; starts the coroutine later)',
+                  'watching.infinite_watch yields events/bookmarks (W2)', 'asyncio.create_task/shield'])
+def Q5(vc):
+    """
+    queueing.watcher, one arbitrary iteration of its `async for` from an arbitrary multiplexer state, for the key
+    of the event at hand.  `streams` (a local of the function) is replaced at the loop head by a dictionary
+    look-alike whose content for that key is symbolic (present / absent); at every suspension point the worker
+    of that key may retire (present -> absent: it deletes its own entry, Q3), never the reverse.
+    Q5  every non-bookmark event is put exactly once, unchanged, into the backlog registered under
+        (resource, uid-of-the-event); bookmarks of both kinds are never put;
+    Q6  the queue an event is put into is still registered in `streams` at the moment of the put (no suspension
+        between lookup and put: otherwise the idle worker could retire in between and the event would be lost);
+        a worker is spawned iff the key was absent, after the new stream was inserted and the event was put, and it is
+        given that same streams dict and key (so `alive[k] == (k in streams)`);
+    Q8  (C20) a failed worker cancels the watcher, which re-raises as RuntimeError after draining and closing.
+    """
+    sym = not vc.concrete
+    resource = 'RES'
+    state = Opaque('mux')
+    state.present = None       # symbolic: is the key of the current event registered?
+    state.stream = None
+    state.detached = []        # stream objects that were removed by their worker
+    state.puts = []            # (stream, item)
+    state.sets = []
+    state.spawns = []
+    state.events = []
+    state.failed_worker = False
+
+    class Queue:
+        def __init__(self, owner=None):
+            self.owner = owner
+
+        async def put(self, item):          # unbounded queue: never suspends (trusted)
+            live = state.stream is not None and state.stream.backlog is self and state.present is not False
+            vc.ensure('put_into_live_stream', And(live, state.present if state.present is not None else False))
+            state.puts.append((self, item))
+            vc.emit('put', item)
+
+    class Event(StubEvent):
+        pass
+
+    class SymStreams:
+        """streams: dict[ObjectRef, Stream] restricted to the key of the event at hand."""
+        def __getitem__(self, k):
+            vc.ensure('keyed_by_uid', k[0] == resource and k[1] is state.uid)
+            if state.present:
+                return state.stream
+            raise KeyError(k)
+
+        def __setitem__(self, k, v):
+            vc.ensure('keyed_by_uid', k[0] == resource and k[1] is state.uid)
+            vc.ensure('create_path_insert_put_spawn', Not(state.present))    # only inserts keys that are absent
+            state.present = True
+            state.stream = v
+            state.sets.append(v)
+            vc.emit('streams.set')
+
+        def __bool__(self):
+            return True
+
+        def values(self):
+            return []
+
+        def keys(self):
+            return []
+
+    streams = SymStreams()
+
+    def on_suspend(site):
+        # the worker of this key may retire here (it deletes its own entry); nobody else inserts
+        if state.present is not None and state.present is not False and state.stream is not None:
+            still = vc.bool('worker still alive')
+            if sym:
+                state.present = And(state.present, still)
+            else:
+                state.present = bool(state.present) and bool(still)
+        if state.in_loop and not state.failed_worker and vc.nondet(2, 'a worker fails here?') == 1:
+            state.failed_worker = True
+            err = ValueError('worker failed')
+            state.worker_exc = err
+            state.handler(err)                   # the scheduler calls the watcher's exception handler
+            return asyncio.CancelledError() if state.task.cancelled_count else None
+        return None
+
+    class Scheduler:
+        def __init__(self, limit=None, exception_handler=None):
+            state.handler = exception_handler
+            state.limit = limit
+            state.closed = False
+
+        async def spawn(self, coro, name=None):
+            vc.emit('spawn', coro)
+            state.spawns.append(coro)
+            await suspend('scheduler.spawn')
+
+        def close(self):
+            return Opaque('close-coro', kind='close')
+
+        def empty(self):
+            return True
+
+    class Task:
+        def __init__(self, coro=None):
+            self.coro, self.cancelled_count, self._done = coro, 0, False
+
+        def cancel(self):
+            self.cancelled_count += 1
+
+        def done(self):
+            return self._done
+    state.task = Task()
+    created = []
+
+    def create_task(coro, name=None):
+        t = Task(coro)
+        created.append(t)
+        return t
+
+    async def shield(task):
+        await suspend('shield')
+        vc.emit('awaited', task.coro)
+        if getattr(task.coro, 'kind', '') == 'close':
+            state.closed = True
+        task._done = True
+
+    async def asleep(delay=0):
+        await suspend('asyncio.sleep')
+
+    def worker(**kw):
+        return Opaque('worker-coro', kw=kw)
+
+    def _wait_for_depletion(**kw):
+        return Opaque('depletion-coro', kw=kw, kind='depletion')
+
+    async def infinite_watch(**kw):
+        if False:
+            yield None
+    stream_obj = Opaque('watch-stream')
+    uid = vc.str('uid')
+    state.uid = uid
+    state.in_loop = False
+
+    def element(loc, iterable):
+        vc.ensure('keyed_by_uid', iterable is stream_obj)
+        state.in_loop = True
+        k = vc.nondet(4, 'stream item: end / LISTED / BOOKMARK / object event')
+        if k == 0:
+            state.in_loop = False
+            return _STOP
+        if k == 1:
+            ev = queueing.watching.Bookmark.LISTED
+        elif k == 2:
+            ev = {'type': 'BOOKMARK', 'object': {'metadata': {'resourceVersion': '123'}}}
+        else:
+            ev = {'type': vc.fin('event.type', ['ADDED', 'MODIFIED', 'DELETED', None]),
+                  'object': {'kind': 'K', 'apiVersion': 'v1', 'metadata': {'uid': uid, 'name': 'n'}}}
+        state.events.append((k, ev))
+        return ev
+
+    def havoc(loc):
+        # arbitrary multiplexer state for this key
+        if vc.nondet(2, 'key registered?') == 1:
+            state.present = True
+            state.stream = queueing.Stream(backlog=Queue(), pressure=Event('pressure'))
+        else:
+            state.present = False
+            state.stream = None
+        state.puts.clear(); state.sets.clear(); state.spawns.clear(); state.events.clear()
+        state.was_present = state.present
+        return {'streams': streams}
+    def invariant(loc):
+        return loc.get('streams') is streams or not state.in_loop
+
+    def at_backedge(loc):
+        # ---- back edge: what this iteration did for its event
+        (kind, ev), = state.events[-1:]
+        vc.canary('canary.always_puts', len(state.puts) == 1)
+        if kind in (1, 2):
+            vc.ensure('no_put_for_bookmarks', not state.puts and not state.spawns and not state.sets)
+        else:
+            vc.ensure('one_put_per_event', len(state.puts) == 1 and state.puts[0][1] is ev)
+            if state.was_present:
+                vc.ensure('spawn_only_when_absent', not state.spawns and not state.sets)
+            else:
+                vc.ensure('create_path_insert_put_spawn', len(state.sets) == 1 and len(state.spawns) == 1)
+                if len(state.sets) == 1 and len(state.spawns) == 1:
+                    kw = state.spawns[0].kw
+                    names = [e[0] for e in vc.trace]
+                    i_set, i_put, i_spawn = (len(names) - 1 - names[::-1].index(n) for n in ('streams.set', 'put', 'spawn'))
+                    vc.ensure('create_path_insert_put_spawn', i_set < i_put < i_spawn)
+                    vc.ensure('create_path_insert_put_spawn', state.puts[0][0] is state.sets[0].backlog)
+                    vc.ensure('create_path_insert_put_spawn', kw['streams'] is streams and kw['key'][1] is uid
+                              and kw['key'][0] == resource and kw['processor'] is processor and kw['settings'] is settings)
+            vc.canary('canary.never_spawns', not state.spawns)
+    processor = Opaque('processor')
+    settings = Opaque('settings', queueing=Opaque('queueing', worker_limit=vc.opt('worker_limit', vc.int)))
+    ld = vc.load('kopf._core.reactor.queueing', 'watcher', stubs={
+        'asyncio.current_task': lambda: state.task,
+        'asyncio.Condition': lambda: Opaque('signaller'),
+        'asyncio.Queue': Queue,
+        'asyncio.Event': lambda: Event('pressure', state=False),
+        'asyncio.create_task': create_task,
+        'asyncio.shield': shield,
+        'asyncio.sleep': asleep,
+        'aiotasks.Scheduler': Scheduler,
+        'watching.infinite_watch': lambda **kw: stream_obj,
+        'worker': worker,
+        '_wait_for_depletion': _wait_for_depletion,
+    }, loops={1: LoopSpec('async for raw_event in stream', invariant=invariant, havoc=havoc, element=element,
+                          at_backedge=at_backedge, rebinds=('streams',))})
+    outcome = 'return'
+    try:
+        vc.drive(ld.fn(namespace=None, settings=settings, resource=resource, processor=processor), on_suspend=on_suspend)
+    except RuntimeError as e:
+        outcome = 'RuntimeError'
+        cause = e.__cause__
+    except asyncio.CancelledError:
+        outcome = 'CancelledError'
+    # ---- on every exit: drained, then closed (C01 shutdown / C20)
+    awaited = [e[1] for e in vc.trace if e[0] == 'awaited']
+    vc.ensure('drains_and_closes_on_exit', len(created) == 2 and all(t._done for t in created))
+    vc.ensure('drains_and_closes_on_exit', len(awaited) >= 2 and getattr(awaited[0], 'kind', '') == 'depletion'
+              and state.closed)
+    # ---- Q8
+    vc.ensure('worker_failure_escalates', Implies(state.failed_worker, outcome == 'RuntimeError'))
+    if outcome == 'RuntimeError':
+        vc.ensure('worker_failure_escalates', state.failed_worker and cause is state.worker_exc)
+    return (outcome,)
+
+
+# ================================================================================================ scheduler
+@harness('S1', targets=['kopf._cogs.aiokits.aiotasks.Scheduler._task_spawner', 'kopf._cogs.aiokits.aiotasks.Scheduler._can_spawn'],
+         props=['C01'],
+         clauses=['limit_respected', 'spawns_while_capacity', 'job_becomes_owned_task', 'fifo'],
+         canaries=['canary.never_spawns'],
+         trusted=['asyncio.Condition.wait_for(pred) returns only when pred() holds, holding the lock',
+                  'asyncio.Queue.get_nowait pops the head or raises QueueEmpty', 'asyncio.create_task'])
+def S1(vc):
+    """
+    Scheduler._task_spawner, one arbitrary round from an arbitrary state with  limit is None or |running| <= limit:
+    the pool never exceeds the limit, jobs are started in FIFO order, each started job becomes a task that is
+    owned (in `_running_tasks`, done-callback attached, cancelled at once iff the scheduler is closed), and the
+    spawner goes back to waiting only when the pending queue is empty or the pool is full (so nobody waits while
+    capacity is free; the other half -- the cleaner notifies the condition whenever a task leaves the pool -- is S2).
+    """
+    from kopf._cogs.aiokits import aiotasks
+    limit = vc.opt('limit', vc.int)
+    if limit is not None:
+        vc.assume(limit >= 0, 'worker_limit is a count')
+    st = Opaque('scheduler-state')
+    st.running = vc.int('running0'); st.pending = vc.int('pending0')
+    vc.assume(And(st.running == 0, st.pending >= 0), 'Scheduler.__init__: the pool starts empty; only the spawner adds to it')
+    st.closed = vc.bool('closed0')
+    st.created, st.popped = [], []
+
+    class Running:
+        def vc_len(self): return st.running
+        def __bool__(self): return bool(st.running > 0)
+        def add(self, task):
+            vc.ensure('job_becomes_owned_task', task is st.created[-1])
+            st.running = st.running + 1
+            vc.ensure('limit_respected', True if limit is None else st.running <= limit)
+            st.added = getattr(st, 'added', 0) + 1
+
+    class Pending:
+        def empty(self): return st.pending == 0
+        def get_nowait(self):
+            if st.pending == 0:
+                raise asyncio.QueueEmpty()
+            st.pending = st.pending - 1
+            job = aiotasks.SchedulerJob(coro=Opaque(f'coro#{len(st.popped)}'), name='n')
+            st.popped.append(job)
+            return job
+
+    class Task:
+        def __init__(self, coro): self.coro, self.cancelled, self.callbacks = coro, 0, []
+        def add_done_callback(self, cb): self.callbacks.append(cb)
+        def cancel(self): self.cancelled += 1
+
+    def create_task(coro, name=None):
+        vc.ensure('fifo', len(st.popped) == len(st.created) + 1 and coro is st.popped[-1].coro)
+        t = Task(coro); st.created.append(t); return t
+
+    def havoc_shared():
+        # rely at a suspension: spawn() may enqueue jobs, finished tasks leave the pool, close() may close
+        p, r = vc.int('pending'), vc.int('running')
+        vc.assume(And(p >= st.pending, r >= 0, r <= st.running), 'others only add jobs / remove finished tasks')
+        st.pending, st.running = p, r
+        c = vc.bool('closed')
+        vc.assume(Implies(st.closed, c), 'closed stays closed')
+        st.closed = c
+
+    class Condition:
+        async def __aenter__(self):
+            await suspend('condition.acquire'); return self
+        async def __aexit__(self, *a): return False
+        async def wait_for(self, pred):
+            await suspend('condition.wait_for')
+            vc.assume(pred(), 'Condition.wait_for returns when the predicate holds')
+            return True
+
+    ld_can = vc.load('kopf._cogs.aiokits.aiotasks', 'Scheduler._can_spawn')
+
+    class Self:
+        _limit = limit
+        _condition = Condition()
+        _pending_coros = Pending()
+        _running_tasks = Running()
+        @property
+        def _closed(self): return st.closed
+        def _can_spawn(self): return ld_can.fn(self)
+        def _task_done_callback(self, task): pass
+    me = Self()
+
+    def inv(loc):
+        return And(st.pending >= 0, st.running >= 0, True if limit is None else st.running <= limit)
+
+    def havoc(loc):
+        st.running = vc.int('running'); st.pending = vc.int('pending'); st.closed = vc.bool('closed')
+        st.created.clear(); st.popped.clear()
+        return {}
+
+    def on_inner_exit(loc):
+        # the spawner is about to wait again: only when nothing is pending or the pool is full
+        vc.ensure('spawns_while_capacity', Or(st.pending == 0, False if limit is None else st.running >= limit))
+
+    def at_inner_back(loc):
+        vc.ensure('job_becomes_owned_task', len(st.created) == 1 and len(st.popped) == 1
+                  and st.created[0].callbacks == [me._task_done_callback] and getattr(st, 'added', 0) == 1)
+        vc.ensure('job_becomes_owned_task', Iff(st.created[0].cancelled == 1, st.closed) if st.created else False)
+        vc.canary('canary.never_spawns', False)
+
+    def inner_havoc(loc):
+        havoc(loc); st.added = 0
+        return {}
+    ld = vc.load('kopf._cogs.aiokits.aiotasks', 'Scheduler._task_spawner', stubs={'asyncio.create_task': create_task},
+                 loops={1: LoopSpec('while True', invariant=inv, havoc=havoc),
+                        2: LoopSpec('while self._can_spawn()', invariant=inv, havoc=inner_havoc, at_backedge=at_inner_back,
+                                    on_exit=on_inner_exit)})
+    vc.drive(ld.fn(me), on_suspend=lambda site: havoc_shared())
+    return ('unreachable: the spawner never returns',)
+
+
+@harness('S2', targets=['kopf._cogs.aiokits.aiotasks.Scheduler._task_done_callback', 'kopf._cogs.aiokits.aiotasks.Scheduler._task_cleaner',
+                        'kopf._cogs.aiokits.aiotasks.Scheduler.spawn'],
+         props=['C01', 'C20'],
+         clauses=['failure_reaches_handler', 'done_task_leaves_pool', 'cleaner_notifies_spawner', 'closed_rejects', 'spawn_enqueues_and_notifies'],
+         canaries=['canary.handler_always_called'],
+         trusted=['asyncio.Task.exception() raises CancelledError for cancelled tasks', 'asyncio.Condition', 'asyncio.Queue'])
+def S2(vc):
+    """
+    The rest of the Scheduler protocol: a finished task leaves the pool at once and its non-cancellation error is
+    passed to the owner's exception handler (that is how a failed worker stops the watcher, C20); the cleaner
+    awaits the task and then notifies the condition while holding it (so the spawner re-evaluates capacity);
+    spawn() on a closed scheduler closes the coroutine un-run and raises, otherwise enqueues one job and notifies.
+    """
+    from kopf._cogs.aiokits import aiotasks
+    which = vc.nondet(3, 'function')
+    log = []
+
+    class Running:
+        def discard(self, t): log.append(('discard', t))
+
+    class CleanQ:
+        def put_nowait(self, t): log.append(('clean.put', t))
+        async def get(self):
+            await suspend('cleaning_queue.get'); return the_task
+
+    class Condition:
+        held = False
+        async def __aenter__(self):
+            await suspend('acquire'); Condition.held = True; return self
+        async def __aexit__(self, *a):
+            Condition.held = False; return False
+        def notify_all(self): log.append(('notify_all', Condition.held))
+
+    class PendingQ:
+        async def put(self, job): log.append(('pending.put', job))
+    handler_calls = []
+    has_handler = vc.nondet(2, 'handler set?') == 1
+
+    class Self:
+        _running_tasks = Running(); _cleaning_queue = CleanQ(); _condition = Condition(); _pending_coros = PendingQ()
+        _exception_handler = (lambda self, exc: handler_calls.append(exc)) if has_handler else None
+        _closed = False
+    me = Self()
+    if has_handler:
+        me._exception_handler = lambda exc: handler_calls.append(exc)
+    kind = vc.fin('task outcome', ['ok', 'cancelled', 'error', 'base-error'])
+    err = {'error': ValueError('boom'), 'base-error': KeyboardInterrupt()}
+
+    class Task:
+        def exception(self):
+            k = resolve(kind)
+            if k == 'cancelled':
+                raise asyncio.CancelledError()
+            return err.get(k)
+        def __await__(self):
+            yield from suspend('await task').__await__()
+            k = resolve(kind)
+            if k == 'cancelled':
+                raise asyncio.CancelledError()
+            if k in err:
+                raise err[k]
+            return None
+    the_task = Task()
+    if which == 0:
+        ld = vc.load('kopf._cogs.aiokits.aiotasks', 'Scheduler._task_done_callback')
+        ld.fn(me, the_task)
+        k = resolve(kind)
+        vc.ensure('done_task_leaves_pool', ('discard', the_task) in log and ('clean.put', the_task) in log)
+        vc.ensure('failure_reaches_handler', (len(handler_calls) == 1 and handler_calls[0] is err.get(k)) if (k in err and has_handler)
+                  else not handler_calls)
+        vc.canary('canary.handler_always_called', len(handler_calls) == 1)
+        return ('callback', k, len(handler_calls))
+    if which == 1:
+        def at_back(loc):
+            i_d = log.index(('discard', the_task)) if ('discard', the_task) in log else -1
+            vc.ensure('cleaner_notifies_spawner', i_d >= 0 and ('notify_all', True) in log[i_d:])
+            vc.canary('canary.handler_always_called', False)
+        ld = vc.load('kopf._cogs.aiokits.aiotasks', 'Scheduler._task_cleaner',
+                     loops={1: LoopSpec('while True', havoc=lambda loc: (log.clear(), {})[1], at_backedge=at_back)})
+        vc.drive(ld.fn(me))
+        return ('cleaner',)
+    closed = vc.bool('closed')
+    me._closed = closed
+    coro = Opaque('coro')
+    cancelled = []
+
+    async def cancel_coro(coro, name=None):
+        cancelled.append(coro)
+
+    async def asleep(d=0):
+        await suspend('sleep')
+    ld = vc.load('kopf._cogs.aiokits.aiotasks', 'Scheduler.spawn', stubs={'cancel_coro': cancel_coro, 'asyncio.sleep': asleep})
+    raised = None
+    try:
+        vc.drive(ld.fn(me, coro, name='n'))
+    except RuntimeError as e:
+        raised = e
+    vc.ensure('closed_rejects', Iff(raised is not None, closed))
+    vc.ensure('closed_rejects', Iff(cancelled == [coro], closed))
+    puts = [e for e in log if e[0] == 'pending.put']
+    vc.ensure('spawn_enqueues_and_notifies', Iff(len(puts) == 1 and puts[0][1].coro is coro if puts else False, Not(closed)))
+    vc.ensure('spawn_enqueues_and_notifies', Implies(Not(closed), ('notify_all', True) in log))
+    vc.canary('canary.handler_always_called', raised is None)
+    return ('spawn', raised is not None)
+
+
+@harness('Q9', targets='kopf._core.reactor.queueing._wait_for_depletion', props=['C01'],
+         clauses=['eos_to_every_stream', 'waits_for_depletion_up_to_exit_timeout'], canaries=['canary.no_eos'],
+         trusted=['asyncio.wait_for', 'asyncio.Condition.wait_for', 'asyncio.Queue.put (unbounded: no suspension)'])
+def Q9(vc):
+    """Shutdown drains: every live stream receives EOS as one more (last) item, then the routine waits for
+    `not streams or scheduler.empty()` for at most settings.queueing.exit_timeout, and swallows only the time-out."""
+    puts = []
+    the_stream = Opaque('stream')
+    the_stream.backlog = Opaque('backlog')
+
+    async def put(item):
+        puts.append(item)
+    the_stream.backlog.put = put
+    streams = Opaque('streams', truth=vc.bool('streams non-empty at the end'))
+    streams.values = lambda: streams
+    streams.keys = lambda: []
+    sched_empty = vc.bool('scheduler.empty')
+    scheduler = Opaque('scheduler'); scheduler.empty = lambda: sched_empty
+    exit_timeout = vc.real('exit_timeout')
+    settings = Opaque('settings', queueing=Opaque('queueing', exit_timeout=exit_timeout))
+    waits = []
+
+    class Signaller:
+        async def __aenter__(self):
+            await suspend('acquire'); return self
+        async def __aexit__(self, *a): return False
+        def wait_for(self, pred):
+            return Opaque('cond.wait_for', pred=pred)
+
+    async def wait_for(aw, timeout):
+        waits.append((aw, timeout))
+        await suspend('wait_for')
+        if vc.nondet(2, 'depleted in time?') == 1:
+            raise asyncio.TimeoutError()
+        return True
+
+    def element(loc, iterable):
+        vc.ensure('eos_to_every_stream', iterable is streams)
+        return _STOP if vc.nondet(2, 'streams exhausted?') == 0 else the_stream
+
+    def at_back(loc):
+        vc.ensure('eos_to_every_stream', puts == [queueing.EOS.token])
+        vc.canary('canary.no_eos', not puts)
+    ld = vc.load('kopf._core.reactor.queueing', '_wait_for_depletion', stubs={'asyncio.wait_for': wait_for, 'logger': NullLogger()},
+                 loops={1: LoopSpec('for stream in streams.values()', element=element, at_backedge=at_back,
+                                    havoc=lambda loc: (puts.clear(), {})[1])})
+    vc.drive(ld.fn(signaller=Signaller(), scheduler=scheduler, settings=settings, streams=streams))
+    vc.ensure('waits_for_depletion_up_to_exit_timeout', len(waits) == 1 and waits[0][1] is exit_timeout)
+    if waits:
+        pred = waits[0][0].pred
+        # the predicate is exactly "not streams or scheduler.empty()"
+        r = pred()
+        vc.ensure('waits_for_depletion_up_to_exit_timeout', Iff(r, Or(Not(streams._truth), sched_empty)))
+    return ('done', len(waits))
